@@ -79,6 +79,7 @@ class EvalNode(ConfigScalar(str)):
     '''
     _top_namespace_module_name = 'awesomeyaml.eval_node_namespace'
     _globals_wrapper_name = '__ayns_globals_wrapper'
+    _eval_symbols_name = '__ayns_eval_symbols'
 
     def __init__(self, value, persistent_namespace=True, **kwargs):
         super().__init__(value, **kwargs)
@@ -100,11 +101,14 @@ class EvalNode(ConfigScalar(str)):
         # the evaluation context, the partially evaluated config and the eval symbols always
         # belong to the build that is running now, also when the namespace of an earlier
         # evaluation of the same code is reused
+        EvalNode._forget_eval_symbols(gbls)
         gbls['ayns'] = Bunch({
             'ctx': ctx,
             'cfg': ctx.ecfg
         })
-        gbls.update(ctx.get_eval_symbols())
+        eval_symbols = ctx.get_eval_symbols()
+        gbls.update(eval_symbols)
+        gbls[EvalNode._eval_symbols_name] = eval_symbols
 
         gbls[EvalNode._globals_wrapper_name] = GlobalsWrapper(gbls, ctx.ecfg, ctx, self, path)
 
@@ -151,6 +155,14 @@ class EvalNode(ConfigScalar(str)):
     def tag():
         return '!eval'
 
+
+    @staticmethod
+    def _forget_eval_symbols(gbls):
+        ''' Removes from a reused namespace the symbols which an earlier evaluation injected into it
+            (they belong to the build that was running then, not to the current one).
+        '''
+        for name in gbls.pop(EvalNode._eval_symbols_name, {}):
+            gbls.pop(name, None)
 
     @staticmethod
     def _patch_access_to_globals(code):
